@@ -39,6 +39,9 @@ pub enum Defect {
     UndecodableL,
     /// malformed: one round too many
     ExtraRound,
+    /// extension tag raised by one with a spare scalar spliced in after d1 (decodes; disagrees with
+    /// the statement's extension degree)
+    ExtraD1,
 }
 
 #[derive(Clone, Debug, Serialize, Deserialize)]
@@ -130,9 +133,10 @@ fn prepare<G: Group>(sc: &Scenario, idx: usize, st: &mut RunStats, rng: &mut Sim
             Defect::PromisePlus => "promise_plus",
             Defect::UndecodableL => "undecodable_l",
             Defect::ExtraRound => "extra_round",
+            Defect::ExtraD1 => "extra_d1",
         }));
         match d {
-            Defect::D1Plus(_) | Defect::R1Plus | Defect::APoint | Defect::UndecodableL | Defect::ExtraRound => {
+            Defect::D1Plus(_) | Defect::R1Plus | Defect::APoint | Defect::UndecodableL | Defect::ExtraRound | Defect::ExtraD1 => {
                 let mut parts = ProofParts::of::<G>(&proof).expect("harness parses library bytes");
                 match d {
                     Defect::D1Plus(k) => {
@@ -151,6 +155,15 @@ fn prepare<G: Group>(sc: &Scenario, idx: usize, st: &mut RunStats, rng: &mut Sim
                     },
                     Defect::ExtraRound => {
                         parts.lr.push((G::enc(&G::random_point(rng)), G::enc(&G::random_point(rng))));
+                    },
+                    Defect::ExtraD1 => {
+                        if parts.ext_tag < 6 {
+                            parts.ext_tag += 1;
+                            parts.d1.push(rng.scalar().to_bytes());
+                        } else {
+                            parts.ext_tag -= 1;
+                            parts.d1.pop();
+                        }
                     },
                     _ => {
                         parts.a = G::enc(&G::random_point(rng));
@@ -473,10 +486,13 @@ fn run<G: Group>(sc: &Scenario, st: &mut RunStats) -> Vec<Violation> {
                     Odd::GBase(_) => "g",
                 }));
                 st.event(format!("op{} inconsistent {:?} at {} of {} -> {}", oi, what, pos, sts.len(), render_verify(&r)));
+                if pos >= 256 {
+                    st.probe("disagreeing_member_in_a_later_chunk");
+                }
                 if !is_err(&r) {
                     out.push(Violation::new(
                         "malformed_batch_not_refused",
-                        format!("inconsistent {:?}", what),
+                        format!("inconsistent {:?}{}", what, if pos >= 256 { " in a later chunk" } else { "" }),
                         format!(
                             "batch of {} whose member {} disagrees on {:?} (mode {}): {}",
                             sts.len(),
@@ -562,7 +578,8 @@ impl Check for C03 {
                 wit.seed_nonce = Some(rng.next_u64());
             }
             let defect = if i >= 2 && rng.chance(1, 3) {
-                Some(match rng.below(8) {
+                Some(match rng.below(9) {
+                    8 => Defect::ExtraD1,
                     6 => Defect::UndecodableL,
                     7 => Defect::ExtraRound,
                     0 => Defect::D1Plus(rng.usize_below(ext)),
@@ -620,7 +637,19 @@ impl Check for C03 {
                     ops.push(Op::Lengths { members, transcripts: f(pat.0), statements: f(pat.1), proofs: f(pat.2), action });
                 },
                 2 => {
-                    let k = rng.range(1, 6) as usize;
+                    // mostly small batches; sometimes the disagreeing member sits alone in (or at the
+                    // start of) a later chunk, behind 256 or 512 members that agree with each other
+                    let (k, forced_pos) = match rng.below(6) {
+                        0 if big_budget > 0 => {
+                            big_budget -= 1;
+                            (256usize, Some(256usize))
+                        },
+                        1 if big_budget > 0 => {
+                            big_budget -= 1;
+                            (*rng.pick(&[257usize, 300, 512]), Some(*rng.pick(&[256usize, 256, 0])))
+                        },
+                        _ => (rng.range(1, 6) as usize, None),
+                    };
                     let members: Vec<usize> = (0..k).map(|_| *rng.pick(&valid)).collect();
                     let what = match rng.below(4) {
                         0 => Odd::Bits,
@@ -628,7 +657,8 @@ impl Check for C03 {
                         2 => Odd::HBase,
                         _ => Odd::GBase(rng.usize_below(ext)),
                     };
-                    ops.push(Op::Inconsistent { members, what, position: rng.usize_below(k + 1), action });
+                    let position = forced_pos.map(|p| p.min(k)).unwrap_or_else(|| rng.usize_below(k + 1));
+                    ops.push(Op::Inconsistent { members, what, position, action });
                 },
                 _ => {
                     let mut k = gen_size(rng, big_budget > 0);
@@ -769,6 +799,7 @@ impl Check for C03 {
             "mask_alignment_checked",
             "honest_message_next_to_defective_twin",
             "defect_undecodable_l",
+            "defect_extra_d1",
             "aggregated_statement_carrying_a_seed",
             "defect_extra_round",
             "shape_empty",
@@ -778,6 +809,7 @@ impl Check for C03 {
             "shape_inconsistent_ext",
             "shape_inconsistent_h",
             "shape_inconsistent_g",
+            "disagreeing_member_in_a_later_chunk",
         ]
     }
 }
